@@ -85,6 +85,13 @@ def verify_unit(job):
                    "backend": r.backend, "time": round(r.time, 4), "note": ob.note, "exc": ob.exc,
                    "reason": r.reason, "cex": None, "outside_known": None}
             if r.status != "unsat":
+                if os.environ.get("PYVC_DUMP_FAILING"):
+                    try:
+                        os.makedirs(os.environ["PYVC_DUMP_FAILING"], exist_ok=True)
+                        with open(os.path.join(os.environ["PYVC_DUMP_FAILING"], slug(ob.oid) + ".smt2"), "w") as fh:
+                            fh.write("(set-logic ALL)\n" + solve._export(ob.hyps, ob.goal, ex.global_facts))
+                    except Exception:
+                        pass
                 if isinstance(r.model, dict):
                     rec["cex"] = r.model.get("cex")
                     if r.model.get("cex_error"):
@@ -280,7 +287,9 @@ def decide(pid: str, tier: str, seed: int, verbose=False, only_units=None) -> in
     pending = list(units)
     # hard obligations fan out to up to four external solver processes each, so leave head-room
     nproc = int(os.environ.get("PYVC_JOBS", str(max(2, min(12, (os.cpu_count() or 4) * 3 // 4)))))
-    with mp.Pool(nproc, maxtasksperchild=8) as pool:
+    # one fresh process per unit: fresh-name counters and the axiom set (which grows with the constructs a unit uses)
+    # then depend on the unit alone, so the VC text of a unit is the same in every run and in every check
+    with mp.Pool(nproc, maxtasksperchild=1) as pool:
         while pending:
             jobs = [(u, [k for k in open_known if k.get("unit") == u], True) for u in pending]
             pending = []
